@@ -139,6 +139,23 @@ impl TreadMill {
         }
     }
 
+    /// The members of the four sets: from-space, to-space, collection nursery, allocation nursery.
+    #[cfg(mmtk_verif)]
+    pub fn verif_sets(&self) -> [Vec<ObjectReference>; 4] {
+        let sync = self.sync.lock().unwrap();
+        let v = |s: &HashSet<ObjectReference>| {
+            let mut v: Vec<ObjectReference> = s.iter().copied().collect();
+            v.sort();
+            v
+        };
+        [
+            v(&sync.from_space),
+            v(&sync.to_space),
+            v(&sync.collect_nursery),
+            v(&sync.alloc_nursery),
+        ]
+    }
+
     /// Enumerate objects.
     ///
     /// Objects in the allocation nursery and the to-spaces are always enumerated.  They include all
